@@ -220,6 +220,62 @@ def attrs_initialised(ctx, eng):
     ctx.floor('classes_with_init', 8)
 
 
+def event_fields(ctx, eng):
+    """Every public event class gives each of its documented fields a value
+    when it is constructed (its own __init__ or the one it inherits): the
+    library sets several of them only on some paths (stream_ended,
+    priority_updated, additional_data ...), and an application that reads a
+    documented field of an event it was handed must find it.  The documented
+    fields are those of the pinned tree (spec/known_fingerprints.json)."""
+    import ast
+    from .. import normalise
+    pinned = normalise.load_pinned().get('attrs', {})
+    m = eng.m
+    n = 0
+    for cq, want in sorted(pinned.items()):
+        if not cq.startswith('events.') or cq.split('.')[-1].startswith('_'):
+            continue
+        c = m.classes.get(cq)
+        if c is None or not want:
+            continue
+        have = set()
+        seen = set()
+        cur = c
+        while cur is not None and cur.qual not in seen:
+            seen.add(cur.qual)
+            # (a default at class level is a value too)
+            have |= {t.id for st in cur.node.body
+                     if isinstance(st, (ast.Assign, ast.AnnAssign))
+                     for t in (st.targets if isinstance(st, ast.Assign)
+                               else [st.target])
+                     if isinstance(t, ast.Name) and (
+                         isinstance(st, ast.Assign) or st.value is not None)}
+            init = cur.methods.get('__init__')
+            if init is not None:
+                have |= {x.attr for x in ast.walk(init.node)
+                         if isinstance(x, ast.Attribute) and
+                         isinstance(x.ctx, ast.Store) and
+                         isinstance(x.value, ast.Name) and
+                         x.value.id == 'self'}
+                # (an __init__ that calls super().__init__ goes on upwards)
+                if not any(isinstance(x, ast.Call) and
+                           isinstance(x.func, ast.Attribute) and
+                           x.func.attr == '__init__'
+                           for x in ast.walk(init.node)):
+                    break
+            nxt = None
+            for b in cur.bases:
+                nxt = m.classes.get('events.' + b) or nxt
+            cur = nxt
+        n += 1
+        missing = sorted(set(want) - have)
+        ctx.ob('TAB.event-fields', cq, 'documented fields are initialised',
+               not missing, 'not given a value at construction: %s' % missing
+               if missing else '%d fields' % len(want), node=c.node)
+    ctx.record('event_classes', n)
+    ctx.floor('event_classes', 15)
+
+
 class Every:
     """Verdict over the paths (or sites) of one obligation: it holds when at
     least one was judged and none failed.  `ok = Every()`, `ok(verdict)` per
